@@ -243,49 +243,173 @@ def r2_r3(ctx):
         if x[0] == "phi":
             return "acc"
         return None
-    fit = []
-    S = None
-    for bi, t, e in g.switches():
-        if bi not in inloop:
-            continue
-        nc = normalised_cmp(e, atom)
-        if not nc or set(nc[0]) != {"entry", "acc"} or nc[0]["entry"] != nc[0]["acc"] or nc[2] in ("==", "!="):
-            continue
-        ivs = cmp_intervals(nc[0]["entry"], nc[1], nc[2])     # x = entry + acc
-        f, tr = g.bool_edges(bi)
-        for (lo, hi), edge in ((ivs[0], tr), (ivs[1], f)):
-            if hi is not None:
-                fit.append((bi, edge))
-                S = hi
-    if S is None:
-        raise AnchorError("send_nodes_response: split guard not found")
-    r3.check(S + overhead <= mps, "largest admitted record sum S = %d, S + %d <= %d" % (S, overhead, mps), "size|bound",
-             "a NODES packet may carry %d bytes of records: with %d bytes of overhead it exceeds MAX_PACKET_SIZE = %d" % (S, overhead, mps), loc=b.loc(b.line))
-    # records are appended to the current packet only on the fit edge
+    # Inductive argument, independent of how the loop body is arranged. Invariant at the loop head: the accumulator A equals the summed record
+    # sizes of the packet that is currently being filled. One iteration is executed symbolically (A, and E = size of this record); for every
+    # path: (i) the record is placed exactly once; (ii) if it joins the current packet, the path's conditions entail A + E + overhead <=
+    # MAX_PACKET_SIZE and the accumulator becomes A + E; (iii) if it goes into a newly opened packet, the accumulator becomes E.
+    from aff import Fact, infeasible
+    Eset = set()
+    for l in range(len(b.locals)):
+        try:
+            if atom(p.local(l)) == "entry" or (p.local(l)[0] == "call" and atom(p.local(l)) == "entry"):
+                Eset.add(l)
+        except Exception:
+            pass
     appends = [bi for bi, m, src, t in writes_into(b, p, tsn) if m == "push" and bi in inloop and bi not in inside]
-    r = b.reachable(H, removed_edges=fit)
-    r3.check(bool(appends) and not any(a in r for a in appends), "a record joins the current packet only past the fit test", "size|append-guard",
-             "a record can be appended to the current packet without the size test", loc=b.loc(b.line))
-    # accumulator
-    restart_ok, add_ok, bad = False, False, []
+    # the loop item: the named local bound to `(iter.next() as Some).0`; it is "placed" where it is moved (into a push, or into the
+    # array behind `vec![enr]`)
+    items = []
+    for l in range(len(b.locals)):
+        if not b.local_name(l):
+            continue
+        e_ = p.local(l)
+        if e_[0] == "field" and e_[1][0] == "as" and e_[1][2] == "Some" and e_[1][1][0] == "call" and re.search(r"Iterator>::next$", short(e_[1][1][1])) and \
+                any(blk_ in inloop for _lhs, _k, _pl, blk_, _ln in p.defs.get(l, ())):
+            items.append(l)
+    if len(items) != 1:
+        raise AnchorError("send_nodes_response: the loop item was not identified (%s)" % items)
+    item = items[0]
+    moves_item = set()
     for blk in b.blocks:
-        for s in blk.stmts:
-            if s.k == "a" and s.lhs.is_local() and s.lhs.local == acc and blk.idx in b.live_blocks():
-                e = p.rvalue(s.rv, blk.idx)
-                lf = linear(e, atom)
-                if blk.idx not in inloop:
-                    if lf != ({}, 0):
-                        bad.append("initialised to %s" % fmt_short(e))
-                elif lf == ({"entry": 1}, 0) and blk.idx not in b.reachable(H, removed_edges=[(x, y) for x, y in [(sb, sx) for sb, _ in fit for sx in b.blocks[sb].term.succs()] if (x, y) not in fit]):
-                    restart_ok = True
-                elif lf == ({"entry": 1}, 0):
-                    restart_ok = True
-                elif lf == ({"entry": 1, "acc": 1}, 0):
-                    add_ok = True
+        if blk.idx not in inloop:
+            continue
+        ops = [o for s_ in blk.stmts if s_.k == "a" for o in s_.rv.ops] + list(blk.term.args)
+        if any(o.kind == "m" and o.place is not None and o.place.is_local() and o.place.local == item for o in ops):
+            moves_item.add(blk.idx)
+    CMP = {"Lt": "<", "Le": "<=", "Gt": ">", "Ge": ">="}
+
+    def val(env, op):
+        c = op.const_int()
+        if c is not None:
+            return ({}, c)
+        pl = op.place
+        if pl is None:
+            return None
+        if pl.is_local():
+            if pl.local in env:
+                return env[pl.local]
+            if pl.local in Eset:
+                return ({"E": 1}, 0)
+            return None
+        if len(pl.proj) == 1 and isinstance(pl.proj[0], tuple) and pl.proj[0][0] == "f" and pl.proj[0][1] == 0 and ("t", pl.local) in env:
+            return env[("t", pl.local)]
+        return None
+
+    def add(x, y, sign=1):
+        if x is None or y is None:
+            return None
+        d = dict(x[0])
+        for k, v in y[0].items():
+            d[k] = d.get(k, 0) + sign * v
+        return ({k: v for k, v in d.items() if v}, x[1] + sign * y[1])
+
+    def step_block(bidx, env, cons):
+        """-> list of (successor, env, constraints)"""
+        env = dict(env)
+        blk = b.blocks[bidx]
+        cmp_of = {}
+        for s_ in blk.stmts:
+            if s_.k == "dead":
+                env.pop(s_.local, None)
+                env.pop(("t", s_.local), None)
+                continue
+            if s_.k != "a" or not s_.lhs.is_local():
+                continue
+            l, rv = s_.lhs.local, s_.rv
+            v = None
+            if rv.k == "use":
+                v = val(env, rv.ops[0])
+            elif rv.k == "cast":
+                v = val(env, rv.ops[0])
+            elif rv.k == "bin" and rv.j["op"] in ("Add", "AddUnchecked", "Sub", "SubUnchecked"):
+                v = add(val(env, rv.ops[0]), val(env, rv.ops[1]), 1 if rv.j["op"].startswith("Add") else -1)
+            elif rv.k == "bin" and rv.j["op"] in ("AddWithOverflow", "SubWithOverflow"):
+                tv = add(val(env, rv.ops[0]), val(env, rv.ops[1]), 1 if rv.j["op"].startswith("Add") else -1)
+                if tv is not None:
+                    env[("t", l)] = tv
                 else:
-                    bad.append("set to %s" % fmt_short(e))
-    r3.check(restart_ok and add_ok and not bad, "accumulator: += record size when it fits, restarts at the record's size for a new packet", "size|accumulator",
-             "the size accumulator is %s" % (bad or ["not restarted at the first record's size / not advanced"]), loc=b.loc(b.line))
+                    env.pop(("t", l), None)
+                continue
+            elif rv.k == "bin" and rv.j["op"] in CMP:
+                cmp_of[l] = (CMP[rv.j["op"]], val(env, rv.ops[0]), val(env, rv.ops[1]))
+                continue
+            if v is None:
+                env.pop(l, None)
+            else:
+                env[l] = v
+        t = blk.term
+        if t.k == "call" and t.dest is not None and t.dest.is_local():
+            env.pop(t.dest.local, None)
+        if t.k == "switch" and t.discr.place is not None and t.discr.place.is_local() and t.discr.place.local in cmp_of:
+            op, x, y = cmp_of[t.discr.place.local]
+            if x is not None and y is not None:
+                f_t = [tb for v_, tb in t.vals if v_ == 0]
+                out = []
+                for s_ in t.succs():
+                    holds = s_ not in f_t
+                    # x op y (holds) or its negation, as `form <= 0`
+                    o = op if holds else {"<": ">=", "<=": ">", ">": "<=", ">=": "<"}[op]
+                    d = add(x, y, -1)            # x - y
+                    if o == "<":
+                        c_ = (d[0], d[1] + 1)                                   # x - y + 1 <= 0
+                    elif o == "<=":
+                        c_ = d
+                    elif o == ">":
+                        c_ = ({k: -v for k, v in d[0].items()}, -d[1] + 1)      # y - x + 1 <= 0
+                    else:
+                        c_ = ({k: -v for k, v in d[0].items()}, -d[1])
+                    out.append((s_, env, cons + ((tuple(sorted(c_[0].items())), c_[1]),)))
+                return out
+        return [(s_, env, cons) for s_ in t.succs()]
+
+    findings = set()
+    seen = set()
+    work = [(H, {acc: ({"A": 1}, 0)}, (), False, 0, True)]     # block, env, constraints, opened, placed, first
+    n_paths = 0
+    while work and len(seen) < 20000:
+        bidx, env, cons, opened, placed, first = work.pop()
+        if bidx == H and not first:
+            n_paths += 1
+            a_after = env.get(acc)
+            if placed != 1:
+                findings.add("the record is placed %d times on a path" % placed)
+            elif opened:
+                if a_after != ({"E": 1}, 0):
+                    findings.add("after opening a new packet for the record the accumulator is %s instead of the record's size" % (a_after,))
+            else:
+                if a_after != ({"A": 1, "E": 1}, 0):
+                    findings.add("after adding the record to the current packet the accumulator is %s instead of A + E" % (a_after,))
+                facts_ = [Fact(dict(c0), c1) for c0, c1 in cons] + [Fact({"A": -1}, 0), Fact({"E": -1}, 0)]
+                neg = Fact({"A": -1, "E": -1}, mps - overhead + 1)       # A + E >= MAX - overhead + 1
+                if not infeasible(facts_ + [neg]):
+                    findings.add("a record can join the current packet on a path whose conditions do not entail A + E + %d <= %d" % (overhead, mps))
+            continue
+        if bidx not in inloop:
+            continue
+        key = (bidx, tuple(sorted((str(k), str(v)) for k, v in env.items())), cons, opened, placed)
+        if key in seen:
+            continue
+        seen.add(key)
+        o2, p2 = opened, placed
+        if bidx in inside:
+            o2 = True
+        if bidx in moves_item:
+            p2 += 1
+        for s_, e2, c2 in step_block(bidx, env, cons):
+            work.append((s_, e2, c2, o2, p2, False))
+    r3.check(n_paths > 0 and not findings, "inductive size bound: on every path of one loop iteration the record is placed once; joining the current packet implies "
+             "A + E + %d <= %d and acc = A + E; a new packet starts with acc = E (%d paths)" % (overhead, mps, n_paths), "size|accumulator",
+             "the split loop does not keep every NODES packet within the datagram limit: %s" % sorted(findings), loc=b.loc(b.line))
+    r3.check(n_paths > 0 and not any("entail" in f for f in findings), "a record joins the current packet only when it fits", "size|append-guard",
+             "a record can be appended to the current packet without a size test that bounds the packet", loc=b.loc(b.line))
+    # the accumulator starts at zero with the first (empty) packet
+    init_bad = []
+    for blk in b.blocks:
+        for s_ in blk.stmts:
+            if s_.k == "a" and s_.lhs.is_local() and s_.lhs.local == acc and blk.idx in b.live_blocks() and blk.idx not in inloop:
+                if linear(p.rvalue(s_.rv, blk.idx), atom) != ({}, 0):
+                    init_bad.append(fmt_short(p.rvalue(s_.rv, blk.idx)))
+    r3.check(not init_bad, "the accumulator is 0 when the loop starts", "size|bound", "the size accumulator is initialised to %s" % init_bad, loc=b.loc(b.line))
     # default max_nodes_response
     cb = facts.one(r"crate::config::ConfigBuilder::new")
     r3.analysed(cb)
